@@ -19,7 +19,9 @@ LS_Q = [2, 3, 5]
 MUT_T = [0.3, 3.0, 30.0]
 MUT_Q = [3.0]
 ETA_FAC = [1.0, 100.0]            # viscosity = factor * mu/omega  (Maxwell loss tangent 1 and 0.01)
-FAMS = ['kamata-dynamic-incompressible', 'kamata-static']
+# (family, integrator): DOP853 is the only integrator that gets the ill-conditioned incompressible-dynamic family through the
+# gate (C01); RK45 is robust on lossy static bodies where DOP853 often exhausts its step budget
+FAMS = [('kamata-static', 'RK45'), ('kamata-dynamic-incompressible', 'DOP853')]
 BODIES = [(6e6, 5500.0), (1e5, 3500.0), (1e8, 8000.0)]
 SEED_FACTORS = C01.SEED_FACTORS
 
@@ -28,7 +30,7 @@ def cases(tier, seed):
     f = SEED_FACTORS[seed % len(SEED_FACTORS)]
     out = []
     th = tier == 'thorough'
-    for fam in FAMS:
+    for fam, meth in FAMS:
         for l in (LS_T if th else LS_Q):
             for mt in (MUT_T if th else MUT_Q):
                 for rh in (RHEOS if th else ['maxwell', 'andrade']):
@@ -36,7 +38,7 @@ def cases(tier, seed):
                         for (R, rho) in (BODIES if th else BODIES[:1]):
                             for w2 in ([1e-7, 1e-6] if th else [1e-6]):
                                 out.append(dict(kind='solver', fam=fam, l=l, mt=mt * f, rheo=rh, eta_fac=ef, R=R, rho=rho,
-                                                w2=w2, meth='DOP853', r0f=1e-2, nd=True))
+                                                w2=w2, meth=meth, r0f=1e-2, nd=True))
     return out
 
 
